@@ -12,7 +12,7 @@ EXTENDS Charstring, TraceIO
 
 TCharstring ==
   /\ IsEvent("charstring")
-  /\ LET r == Run(Start(Ev.main, Ev.g, Ev.l, Ev.hl)) IN
+  /\ LET r == Run(Start5(Ev.main, Ev.g, Ev.l, Ev.hl, Ev.bk)) IN
      /\ r.status = Ev.status
      /\ r.status = "err" => r.why = Ev.why
      /\ r.cmds = Ev.cmds
